@@ -130,6 +130,9 @@ __strpd_std(const char *str, char **ep)
 			default:
 				goto fucked;
 			}
+		} else if ((unsigned int)d.m > GREG_MONTHS_P_YEAR) {
+			/* a month it is not */
+			goto fucked;
 		} else if (d.d = strtoi32(++tmp, &sp), d.d < 0 || d.d > 31) {
 			/* didn't work, fuck off */
 			goto fucked;
